@@ -153,6 +153,7 @@ func C20(c *Ctx) {
 	r.Rule("C20-b", "for each generated parser: gofmt(static tail from `var ( // errNoRule`) == gofmt(variant for the recipe's flags [+ rangeTable iff referenced]); flags from the Makefile and properties of the literal (stateCodeExpr ⇒ GlobalState, leader: ⇒ LeftRecursion) do not contradict")
 	r.Rule("C20-c", "set of *.peg under test/, examples/, grammar/ == set of grammars with a Makefile recipe; every recipe target exists and carries the generated-code header; every file with the header has a recipe")
 	r.Rule("C20-e", "sibling agreement of the two front-ends on literal decoding: the value passed to ast.NewLitMatcher is, in bootstrap/parser.go and in the generated pigeon.go alike, the result of strconv.Unquote on the raw token text (helpers are resolved one level); class, any-matcher, identifier and code-block values are the raw token text in both")
+	r.Rule("C20-f", "sibling agreement of the two front-end grammars: every rule defined both in grammar/bootstrap.peg and in grammar/pigeon.peg (compared through their generated literals, positions and actions aside) has the same expression, except the listed rules where pigeon.peg extends the bootstrap subset")
 	r.Rule("C20-d", "for artifacts generated without -optimize-grammar: every position{line,col,offset} in the grammar literal satisfies line = 1 + newlines before offset, col = 1 + runes since the last newline; rule names, rule references, character-class texts and `.` occur at their offsets in the .peg")
 
 	repo := load.Repo()
@@ -178,6 +179,8 @@ func C20(c *Ctx) {
 	}
 	// ---- e: sibling agreement on literal decoding
 	c20Decoders(c)
+	// ---- f: the two front-end grammars agree on the rules they share
+	siblingGrammars(c, "C20-f")
 	// ---- c: coverage
 	c20Coverage(c, repo, arts)
 	// ---- b, d per artifact
